@@ -406,7 +406,9 @@ OnDump(e) ==
                  \cup (IF \E k \in deadkeys : ~(\E x \in ents : x.key = k /\ ~x.live /\ ~x.tomb)
                        THEN V("C10", "C10_MarkerKept", e, [cutoff |-> cut, keys |-> {k \in deadkeys : ~(\E x \in ents : x.key = k /\ ~x.live /\ ~x.tomb)}]) ELSE {})
             ELSE {}
-  IN IF e.outcome # "ok" THEN [g2 |-> g, v |-> Unexpected(e, "dump")] ELSE [g2 |-> g1, v |-> v1 \cup v2 \cup v3]
+      \* scan order of the writer's in-memory tree against native SQLite's order of the same keys
+      v4 == IF Has(e, "order_ok") /\ ~e.order_ok THEN V("C16", "C16_StrictlyIncreasing", e, [keys |-> [i \in DOMAIN e.entries |-> e.entries[i].key]]) ELSE {}
+  IN IF e.outcome # "ok" THEN [g2 |-> g, v |-> Unexpected(e, "dump")] ELSE [g2 |-> g1, v |-> v1 \cup v2 \cup v3 \cup v4]
 
 OnKVDump(e) ==
   LET c == e.c IN
@@ -432,7 +434,9 @@ OnKVDump(e) ==
                    THEN "C16_DecodesToSame_LeakedInsert" ELSE "C16_DecodesToSame", e, [writer |-> [entries |-> Canon(wd.entries), size |-> wd.size, height |-> wd.height],
                                                     reader |-> [entries |-> Canon(e.entries), size |-> e.size, height |-> e.height]]) ELSE {}
       v3 == IF e.has_only THEN CheckRows(e, c, FactsOfVersions(only), rows, "open of named versions") ELSE {}
-  IN [g2 |-> g, v |-> v1 \cup v2 \cup v3]
+      \* scan order of the decoded tree against native SQLite's order of the same keys
+      v4 == IF Has(e, "order_ok") /\ ~e.order_ok THEN V("C16", "C16_StrictlyIncreasing", e, [keys |-> [i \in DOMAIN e.entries |-> e.entries[i].key]]) ELSE {}
+  IN [g2 |-> g, v |-> v1 \cup v2 \cup v3 \cup v4]
 
 OnReach(e) ==
   LET vs == {e.versions[i] : i \in DOMAIN e.versions}
